@@ -54,8 +54,14 @@ def render_ini(c, r, section="bumpver", quote="all"):
             lines.append("%s = %s" % (k, r.choice(TRUE_SPELLINGS if c[k] else FALSE_SPELLINGS)))
     lines += ["", "[%s:file_patterns]" % section]
     for path, pats in c["files"].items():
-        lines.append("%s =" % path)
-        for p in pats:
+        if quote == "none" and pats:
+            # first pattern on the same line as the file name (configparser joins continuation lines)
+            lines.append("%s = %s" % (path, pats[0]))
+            rest = pats[1:]
+        else:
+            lines.append("%s =" % path)
+            rest = pats
+        for p in rest:
             lines.append("    %s" % p)
     return "\n".join(lines) + "\n"
 
